@@ -876,4 +876,66 @@ theorem interpret_old_witness :
   · simp [interpretNode, freshSubs, wE, wσ, wEnv, denote, Env.lookup, Sem.scalar,
       Sem.toNat?, Sem.ofNat, ravel, prodList]
 
+/-! ## HEAD: the original node's own keys that are inputs of the rebuilt node -/
+
+theorem interpretHead_denote (origOwn : List Name) (e : Term) (σ : Subst)
+    (env b : Env) (hb : denoteSubs σ env = some b) :
+    denote (interpretHead origOwn e σ) env =
+      denote e (b.filter (fun q => decide (q.1 ∈ origOwn) && decide (q.1 ∈ e.fv)) ++ env) := by
+  have h := denoteSubs_filter (fun k => decide (k ∈ origOwn) && decide (k ∈ e.fv)) σ env b hb
+  unfold interpretHead freshSubsHead
+  split
+  · rename_i heq
+    rw [heq, denoteSubs] at h
+    rw [← Option.some.inj h]; rfl
+  · rename_i p ps heq
+    rw [← heq, subs_denote, h]; rfl
+
+/-- HEAD's rule (`k in self.fresh and k in expr.inputs`) needs no freshness side condition: the
+    keys dropped by the `∈ e.fv` filter cannot influence `e` (coincidence), so the rebuilt node —
+    evaluated to any `e` with the meaning of the rebuilt `r` — gets exactly the substitutions of
+    the names the original node introduces. -/
+theorem interpret_head_sound (e r : Term) (origOwn : List Name) (σ : Subst) (env : Env) :
+    (∀ env', denote e env' = denote r env') →
+    (denoteSubs σ env).isSome = true →
+    denote (interpretHead origOwn e σ) env = denote (wrapOwn r origOwn σ) env := by
+  intro her h
+  obtain ⟨b, hb⟩ := Option.isSome_iff_exists.mp h
+  rw [interpretHead_denote _ _ _ _ b hb, wrapOwn_denote _ _ _ _ b hb, ← her]
+  apply denote_coincidence
+  intro n hn
+  rw [lookup_append_or, lookup_append_or,
+    lookup_filter (fun k => decide (k ∈ origOwn) && decide (k ∈ e.fv)),
+    lookup_filter (fun k => decide (k ∈ origOwn))]
+  simp [hn]
+
+/-! ### The 86bd40d rule drops a substitution when the base interpretation rewrites the node
+
+`Cat('i', (p + x,))` is rebuilt by `eager_cat` into the Binary `p + x`, whose fresh set is empty
+while the original Cat introduces `i`. -/
+
+def fE : Term :=
+  Term.binary ⟨"add", Sexp.list []⟩ (Term.tensor [("i", 3)] ⟨DType.real, []⟩ #[0, 1, 2])
+    (Term.var "x" ⟨DType.real, []⟩)
+def fσ : Subst := [("i", Term.num 1 (DType.bint 3))]
+def fEnv : Env := [("i", Sem.ofNat 0), ("x", Sem.scalar 0)]
+
+theorem interpret_fix86_witness :
+    (denote (interpretNode true ["i"] [] fE fσ) fEnv).map (·.get []) = some 0 ∧
+    (denote (interpretHead ["i"] fE fσ) fEnv).map (·.get []) = some 1 ∧
+    (denote (Term.subs fE fσ) fEnv).map (·.get []) = some 1 := by
+  refine ⟨?_, ?_, ?_⟩
+  · simp [interpretNode, freshSubs, fE, fσ, fEnv, denote, Env.lookup, Sem.scalar,
+      Sem.toNat?, Sem.ofNat, ravel, prodList, evalBinary, Sem.zip?, broadcastShapes,
+      broadcastShapes.go, allIdx, binop, XR.add, bcastIdx]
+    decide +kernel
+  · simp [interpretHead, freshSubsHead, Term.fv, fE, fσ, fEnv, denote, denoteSubs, Env.lookup, Sem.scalar,
+      Sem.toNat?, Sem.ofNat, ravel, prodList, evalBinary, Sem.zip?, broadcastShapes,
+      broadcastShapes.go, allIdx, binop, XR.add, bcastIdx]
+    decide +kernel
+  · simp [fE, fσ, fEnv, denote, denoteSubs, Env.lookup, Sem.scalar,
+      Sem.toNat?, Sem.ofNat, ravel, prodList, evalBinary, Sem.zip?, broadcastShapes,
+      broadcastShapes.go, allIdx, binop, XR.add, bcastIdx]
+    decide +kernel
+
 end FV.Props.C04
